@@ -94,7 +94,13 @@ func caseVariant(r *rand.Rand, f string) string {
 		b[i] += 32
 	}
 	parts[0] = string(b)
-	return strings.Join(parts, " ")
+	v := strings.Join(parts, " ")
+	// only well-formed variants: the side that is not to move must not be in check
+	pos, turn, _, _, err := fen.Decode(v)
+	if err != nil || pos == nil || pos.IsChecked(turn.Opponent()) {
+		return ""
+	}
+	return v
 }
 
 func extend(r *rand.Rand, g gameT, k int) gameT {
